@@ -11,6 +11,8 @@ using namespace vpbt;
 extern "C"
 {
     char *igc_itoa(int num, char *buf, unsigned short int base);
+    int igc_atoi(const char *);
+    long igc_atol(const char *);
     char *igc_utoa(unsigned int num, char *buf, unsigned short int base);
     char *igc_ltoa(long num, char *buf, unsigned short int base);
     char *igc_ultoa(unsigned long num, char *buf, unsigned short int base);
@@ -397,6 +399,13 @@ static void t_libc_itoa(Src &s, Case &c)
     }
     VP_CHECK(blk.c()[len] == 0 && ieq(blk.c(), ref, (size_t)len), "libc_itoa_text", "%s base %d: got '%.*s' want '%s'",
              names[which], base, len + 1, blk.c(), ref);
+    // the decimal texts parse back through the shim's own atoi / atol (atol.c): the original value, type minima included
+    if (base == 10 && (which == 0 || which == 2))
+    {
+        if (which == 0)
+            VP_CHECK(igc_atoi(blk.c()) == (int)v.as_signed(), "libc_atoi_roundtrip", "atoi(\"%s\") = %d", blk.c(), igc_atoi(blk.c()));
+        VP_CHECK(igc_atol(blk.c()) == (long)v.as_signed(), "libc_atol_roundtrip", "atol(\"%s\") = %ld", blk.c(), igc_atol(blk.c()));
+    }
 }
 VP_TARGET("libc_itoa", t_libc_itoa,
           "compat/libc itoa/utoa/ltoa/ultoa: boundary-biased value x base 2..36, exact buffer; non-trivial = "
